@@ -535,7 +535,18 @@ impl KeyKeeper {
                                 .await;
                             }
                             Err(e) => {
-                                logger::write_warning(format!("Failed to attest the key: {:?}", e));
+                                // Error::Hex quotes the key value: never write it to the log
+                                let reason = match e {
+                                    Error::Hex(_, hex_error) => format!(
+                                        "the acquired key '{}' is not a valid hex string: {}",
+                                        guid, hex_error
+                                    ),
+                                    other => format!("{:?}", other),
+                                };
+                                logger::write_warning(format!(
+                                    "Failed to attest the key: {}",
+                                    reason
+                                ));
                                 continue;
                             }
                         }
